@@ -57,6 +57,10 @@ class Transcript:
             self.add(name, f'wn.Error({exc})')
         except KeyError as exc:
             self.add(name, f'KeyError({exc})')
+        except (TypeError, ValueError, AttributeError, LookupError) as exc:
+            # an exception is an outcome like any other here: C16 asks whether outcomes are reproducible, not whether
+            # the call should have succeeded (that is for the property owning the call)
+            self.add(name, f'{type(exc).__name__}({exc})')
 
 
 def battery(t, data_dir, resource_xml, scratch, reverse=False):
@@ -68,7 +72,7 @@ def battery(t, data_dir, resource_xml, scratch, reverse=False):
     t.add('lexicons', wn.lexicons())
     for lx in wn.lexicons():
         t.add(f'{canon(lx)} links', (lx.requires(), lx.extends(), lx.extensions(depth=-1), lx.metadata(), lx.modified()))
-        t.add(f'{canon(lx)} describe', lx.describe())
+        t.attempt(f'{canon(lx)} describe', lx.describe)
     t.add('ilis', wn.ilis())
     for st in ('presupposed', 'proposed', 'active'):
         t.add(f'ilis({st})', wn.ilis(status=st))
